@@ -1,4 +1,4 @@
-#!/bin/sh
+#!/bin/bash
 # usage: tools/matrix.sh [seed-id ...]   (default: all under seeded/)
 # For every seeded change: apply to a scratch worktree, run every claimed check, print
 # "<seed> <own property> caught-by=<list> own=<CAUGHT|MISSED>".
@@ -16,9 +16,9 @@ one() {
   fi
   out=$(mktemp -d /tmp/mxout.XXXXXX)
   caught=""
-  for p in $props; do
-    if ! VERIF_REPO="$wt" VERIF_OUT="$out" "$here/bin/ntripcheck" -property $p -tier quick -repo "$wt" -verif "$here" >/dev/null 2>&1; then caught="$caught $p"; fi
-  done
+  # one process runs every check (development mode of the checker)
+  caught=" $(VERIF_OUT="$out" "$here/bin/ntripcheck" -property all -repo "$wt" -verif "$here" 2>&1 | awk '/^ALL .* (ALARM|PANIC)/{printf "%s ", $2} /^ALL load-error/{printf "LOAD "}')"
+  caught=${caught% }
   rm -rf "$out"
   git -C /repo worktree remove --force "$wt"
   case " $caught " in *" $own "*) st=CAUGHT;; *) st=MISSED;; esac
